@@ -141,6 +141,10 @@ def run(ck: Check) -> int:
                 calls.append(('glob.translate', gfl, lambda: [re.compile(x) for t in G.translate(pp, flags=gfl) for x in t]))
                 calls.append(('glob.globmatch', gfl & ~G.REALPATH, lambda: [G.globmatch(conv(nm), pp, flags=gfl & ~G.REALPATH) for nm in names]))
                 calls.append(('glob.glob', gfl & ~G.FOLLOW, lambda: G.glob(pp, flags=gfl & ~G.FOLLOW, root_dir=conv(tmp))))
+                calls.append(('glob.globmatch(REALPATH)', (gfl | G.REALPATH) & ~G.FOLLOW,
+                              lambda: [G.globmatch(conv(nm), pp, flags=(gfl | G.REALPATH) & ~G.FOLLOW, root_dir=conv(tmp)) for nm in ('x', 'a/y', 'a/b', 'nope', '.h')]))
+                calls.append(('glob.globfilter(REALPATH)', (gfl | G.REALPATH) & ~G.FOLLOW,
+                              lambda: G.globfilter([conv('x'), conv('a/b/z')], [pp, conv('!x')] if k % 3 == 0 else pp, flags=(gfl | G.REALPATH | (G.NEGATE if k % 3 == 0 else 0)) & ~G.FOLLOW, root_dir=conv(tmp))))
                 if k % 4 == 0:
                     calls.append(('wcmatch.WcMatch', wfl, lambda: WM.WcMatch(conv(tmp), pp, pp if k % 8 == 0 else None, wfl).match()))
                 for api, fl, thunk in calls:
